@@ -130,6 +130,20 @@ Theorem C09_strip_keeps : forall sp pr n n', strip_ok sp pr false n = true -> st
 Proof. exact strip_top_raw. Qed.
 Print Assumptions C09_strip_keeps.
 
+(* strip_tags on an element that is itself stripped (Span.remove_spans(), repaired code fixes/F105): all the characters of
+   the element, its own tail included, are in the returned paragraph — under the same guard *)
+Theorem C09_strip_default_keeps : forall a0 sp pr n n', sp (kind_of n) (match n with Node _ _ s _ _ _ => s end) = true ->
+  strip_ok sp pr false n = true -> fold_ok (fst (strip_ collapse sp pr false n)) (None, []) = true ->
+  strip_default collapse a0 sp pr n = Some n' -> raw (content n') = raw (flat n).
+Proof. exact strip_default_raw. Qed.
+Print Assumptions C09_strip_default_keeps.
+Definition F105_witness : node :=      (* <text:span>a<text:span>b</text:span>c</text:span> *)
+  Node KSpan 1 false (Some [Ch 0]) [Node KSpan 2 false (Some [Ch 1]) [] (Some [Ch 2])] None.
+Theorem C09_strip_default_pinned_refuted : exists n n',
+  strip_default_pinned 9 (fun k _ => kind_eqb k KSpan) (fun _ => false) n = Some n' /\ raw (content n') <> raw (flat n).
+Proof. exists F105_witness. eexists. split; [vm_compute; reflexivity|vm_compute; discriminate]. Qed.
+Print Assumptions C09_strip_default_pinned_refuted.
+
 (* ---- refuted on the code as it is: F16 (known finding), and the negative-offset arithmetic of the pinned code (F101, repaired) *)
 Definition F16_witness : node :=       (* <text:p>a <text:span> b</text:span></text:p> *)
   Node KP 1 false (Some [Ch 0; Sp]) [Node KSpan 2 false (Some [Sp; Ch 1]) [] None] None.
